@@ -21,7 +21,7 @@ EXPLANATION = (
     'accessor code, not over sampled calls.')
 
 
-TECHNIQUE = 'static analysis: flow-sensitive may-alias/escape dataflow over a hand-built CFG of each accessor; linear-form normalisation of slice bounds'
+TECHNIQUE = ('static analysis: flow-sensitive may-alias/escape dataflow over the CFG of each public accessor with its private helpers inlined; linear-form normalisation of slice bounds with temporaries resolved')
 
 
 def _has_return_value(f):
